@@ -28,6 +28,8 @@ FILES1 = {
     '..x': b'leading dots file', '..d/f.txt': b'in dotdot-ish dir', 'dup.txt': b'from root1', '.hidden': b'hidden', 'sub/index.html': b'<html>x</html>',
     'shadow/inner.txt': b'root1 shadow is a directory', 'big.dat': b'0123456789abcdef' * 5000,
     # below the first component a name may begin with two dots: an ordinary file / directory name there
+    # names that change under Unicode normalisation (decomposed accents, compatibility characters): served under the name they have
+    'de\u0301compose\u0301.txt': b'decomposed accents', 'sub/\u212bngstrom-\u2126.txt': b'compatibility characters', '\ufb01le.txt': b'ligature',
     'sub/..x': b'dotdot-ish name one level down', 'sub/..d/f.txt': b'inside a dotdot-ish directory one level down', 'sub/deep/..x': b'two levels down',
 }
 FILES2 = {'shadow': b'root2 shadow is a file', 'dup.txt': b'from root2', 'only2.txt': b'only in second', 'sub/b2.txt': b'b2',
